@@ -7,7 +7,7 @@
   definition order) are closed here by a cardinality argument; (C) the same statements for `fromDict` on instances;
   (D) `save_dc_types`; (E) regression examples of the repaired finding, and the open finding D16: full statement,
   witness, named exclusion; (R) the class table (`resolve`, `descendants`, flag inheritance) and the identified clause
-  restated over it; (E3)/(E4) the open findings `C14-frozen-noninit-setattr` and `C14-nested-drop-forwarding`.
+  restated over it; (E3) the repaired finding `C14-frozen-noninit-setattr` (now a theorem), (E4) the open finding `C14-nested-drop-forwarding`.
 -/
 import Batteries.Data.List.Perm
 import SpVerif.Model.Subclass
@@ -283,29 +283,12 @@ theorem construct_all (x : Str → Int) (F : List Field) (args : List (Str × Va
 theorem rawOf_keys (x : Str → Int) (F : List Field) : (rawOf x F).map (·.1) = F.map (·.name) := by
   simp [rawOf]
 
-/-- `setattr` of the decoded `init=False` fields succeeds: the class is not frozen, or it has no `init=False` field
-    (named decidable exclusion of the open finding `C14-frozen-noninit-setattr`) -/
-def Settable (rc : RCls) : Prop := rc.frozen = false ∨ ∀ f ∈ rc.fields, f.init = true
-
-instance (rc : RCls) : Decidable (Settable rc) := by unfold Settable; infer_instance
-
-theorem settable_ok (rc : RCls) (decoded : List (Str × Val)) (h : Settable rc) :
-    (rc.frozen && nonInitGiven rc.fields decoded) = false := by
-  rcases h with h | h
-  · simp [h]
-  · have : nonInitGiven rc.fields decoded = false := by
-      unfold nonInitGiven
-      apply List.any_eq_false.mpr
-      intro f hf
-      simp [h f hf]
-    simp [this]
-
 /-- **A dict whose keys are all fields of `c` and that has every field of `c` is loaded as exactly `c`** — with any
     `drop_extra_fields`, any subclasses, any order: no key is left over, so the subclass search is never entered
     (serializable.py:860) and the constructor gets every argument (never `RuntimeError`). -/
 theorem load_exact (R : List RCls) (π : Nat → List Nat) (fuel : Nat) (c : Nat) (rc : RCls) (kv : List (Str × J))
     (x : Str → Int) (drop : Option Bool)
-    (hc : R[c]? = some rc) (hset : Settable rc) (hty : lookupKey typeKey kv = none)
+    (hc : R[c]? = some rc) (hty : lookupKey typeKey kv = none)
     (hp : ∀ f ∈ rc.fields, f.ty = .prim)
     (hk : ∀ f ∈ rc.fields, lookupKey f.name kv = some (J.int (x f.name)))
     (hno : ∀ k ∈ kv.map (·.1), k ∈ rc.fields.map (·.name)) :
@@ -316,14 +299,13 @@ theorem load_exact (R : List RCls) (π : Nat → List Nat) (fuel : Nat) (c : Nat
     apply filter_eq_nil_iff.mpr; intro k hk'; simpa using hno k hk'
   simp only [hno', isEmpty_nil, Bool.true_or, if_true]
   rw [construct_all x rc.fields _ (fun f hf => lookup_valOf x rc.fields f hf)]
-  simp only [settable_ok rc _ hset, Bool.false_eq_true, if_false]
 
 /-- **Drop clause.** With `drop_extra_fields` in effect (given as `True`, or `None` on a class that does not decode
     into subclasses) and no `_type_` key, the result is EXACTLY the base class, its own fields kept, every unknown
     key dropped — whatever the unknown keys are and whatever subclasses exist. -/
 theorem c14_drop (R : List RCls) (π : Nat → List Nat) (fuel : Nat) (b : Nat) (rb : RCls) (kv : List (Str × J))
     (x : Str → Int) (drop : Option Bool)
-    (hb : R[b]? = some rb) (hset : Settable rb)
+    (hb : R[b]? = some rb)
     (hdrop : drop.getD (if rb.mixin then false else !rb.dis) = true)
     (hty : lookupKey typeKey kv = none) (hp : ∀ f ∈ rb.fields, f.ty = .prim)
     (hk : ∀ f ∈ rb.fields, lookupKey f.name kv = some (J.int (x f.name))) :
@@ -332,7 +314,6 @@ theorem c14_drop (R : List RCls) (π : Nat → List Nat) (fuel : Nat) (b : Nat) 
   rw [decodeFields_prim _ true kv x rb.fields hp hk]
   simp only [Bool.or_true, if_true]
   rw [construct_all x rb.fields _ (fun f hf => lookup_valOf x rb.fields f hf)]
-  simp only [settable_ok rb _ hset, Bool.false_eq_true, if_false]
 
 example : fromDict (resolve [mkCls "B" none (some false) [fInt "a"]]) (fun _ => []) 1 0
     (.obj [("a".toList, .int 5), ("zz".toList, .int 7)]) none = .ok (.inst 0 [("a".toList, .int 5)]) := by rfl
@@ -348,7 +329,6 @@ structure Derived (R : List RCls) (b D : Nat) (rb rD : RCls) (extn : List Str) :
   prim : ∀ f ∈ rD.fields, f.ty = .prim
   nodup : (rD.fields.map (·.name)).Nodup
   noTypeKey : typeKey ∉ rD.fields.map (·.name)
-  settable : Settable rD
 
 theorem initNames_eq (R : List RCls) (c : Nat) (rc : RCls) (h : R[c]? = some rc) :
     initNames R c = (rc.fields.filter (·.init)).map (·.name) := by
@@ -398,7 +378,7 @@ theorem keep_step (R : List RCls) (π : Nat → List Nat) (fuel : Nat) (b D : Na
       match pickSubclass R ((π b).filter (fun c => c ≠ b)) (reqOf R b rb extn x) with
       | some child => fromDict R π (fuel + 1) child (.obj (rawOf x rD.fields)) (some false)
       | none => .raise "RuntimeError".toList := by
-  obtain ⟨hb, hD, hnames, hpb, hprim, hnd, hnt, _⟩ := h
+  obtain ⟨hb, hD, hnames, hpb, hprim, hnd, hnt⟩ := h
   have hnd' := hnd
   rw [hnames] at hnd'
   have hdisj : ∀ k ∈ extn, k ∉ rb.fields.map (·.name) := fun k hk hk' =>
@@ -432,11 +412,11 @@ theorem enc_flat (R : List RCls) (D : Nat) (x : Str → Int) (F : List Field) :
 /-- the second call: the dict of a `D` instance loaded as a class `c` with the same field-name set -/
 theorem load_same_set (R : List RCls) (π : Nat → List Nat) (fuel : Nat) (D c : Nat) (rD rc : RCls) (x : Str → Int)
     (drop : Option Bool) (hD : R[D]? = some rD) (hnt : typeKey ∉ rD.fields.map (·.name))
-    (hc : R[c]? = some rc) (hp : ∀ f ∈ rc.fields, f.ty = .prim) (hset : Settable rc)
+    (hc : R[c]? = some rc) (hp : ∀ f ∈ rc.fields, f.ty = .prim)
     (hDc : fieldNames R D ⊆ fieldNames R c) (hcD : fieldNames R c ⊆ fieldNames R D) :
     fromDict R π (fuel + 1) c (.obj (rawOf x rD.fields)) drop = .ok (.inst c (valOf x rc.fields)) := by
   rw [fieldNames_eq R D rD hD, fieldNames_eq R c rc hc] at hDc hcD
-  exact load_exact R π fuel c rc _ x drop hc hset (lookup_rawOf_none x _ _ hnt) hp
+  exact load_exact R π fuel c rc _ x drop hc (lookup_rawOf_none x _ _ hnt) hp
     (fun f hf => lookup_rawOf_name x _ f.name (hcD (mem_map.mpr ⟨f, hf, rfl⟩)))
     (fun k hk => hDc (by rw [rawOf_keys] at hk; exact hk))
 
@@ -448,7 +428,7 @@ theorem c14_superset_result (R : List RCls) (π : Nat → List Nat) (fuel : Nat)
     (h : Derived R b D rb rD extn) (hkeep : drop.getD (if rb.mixin then false else !rb.dis) = false) (hext : extn ≠ [])
     (hsubcls : ExtendBase R (π b) b) (hDπ : D ∈ π b) (hDb : D ≠ b) :
     ∃ c, c ∈ π b ∧ c ≠ b ∧ fieldNames R D ⊆ fieldNames R c ∧ fieldNames R c ⊆ fieldNames R D ∧
-      ∀ rc, R[c]? = some rc → (∀ f ∈ rc.fields, f.ty = .prim) → Settable rc →
+      ∀ rc, R[c]? = some rc → (∀ f ∈ rc.fields, f.ty = .prim) →
         fromDict R π (fuel + 2) b (encV R false (.inst D (valOf x rD.fields))) drop
           = .ok (.inst c (valOf x rc.fields)) := by
   have hDc : D ∈ (π b).filter (fun c => c ≠ b) := mem_filter.mpr ⟨hDπ, by simpa using hDb⟩
@@ -460,9 +440,9 @@ theorem c14_superset_result (R : List RCls) (π : Nat → List Nat) (fuel : Nat)
   have hcm' := mem_filter.mp (c14_superset (fieldNames R) _ _ c hc).1
   have ⟨h1, h2⟩ := pick_same_set (fieldNames R) _ _ D c hDc hndI (req_covered R b D rb rD extn x h) hfull hc
   refine ⟨c, hcm'.1, by simpa using hcm'.2, h1, h2, ?_⟩
-  intro rc hrc hp hset
+  intro rc hrc hp
   rw [enc_flat, keep_step R π fuel b D rb rD extn x drop h hkeep hext, pickSubclass_eq, hc]
-  exact load_same_set R π fuel D c rD rc x (some false) h.hD h.noTypeKey hrc hp hset h1 h2
+  exact load_same_set R π fuel D c rD rc x (some false) h.hD h.noTypeKey hrc hp h1 h2
 
 /-- **Identified clause, end to end (full strength).**  `b.from_dict(to_dict(d), drop)` with subclass decoding in effect,
     `d` an instance of a derived class `D` — its extra fields init fields or not — returns `d` itself (class `D`, same
@@ -483,7 +463,7 @@ theorem c14_identified (R : List RCls) (π : Nat → List Nat) (fuel : Nat) (b D
     req_covers R b D rb rD extn x h c (hsubcls c (mem_filter.mp hc).1) hcov
   rw [enc_flat, keep_step R π fuel b D rb rD extn x drop h hkeep hext, pickSubclass_eq,
     c14_identified_pick (fieldNames R) _ _ D hDc hndI (req_covered R b D rb rD extn x h) hfull huniq]
-  exact load_same_set R π fuel D D rD rD x (some false) h.hD h.noTypeKey h.hD h.prim h.settable
+  exact load_same_set R π fuel D D rD rD x (some false) h.hD h.noTypeKey h.hD h.prim
     (fun _ hk => hk) (fun _ hk => hk)
 
 /-- **Order freedom, end to end**: two iteration orders of the subclass set (two process histories) give the same
@@ -505,11 +485,11 @@ theorem c14_order_free_load (R : List RCls) (π₁ π₂ : Nat → List Nat) (fu
     class, `D = b`): whatever `drop_extra_fields`, the flags and the subclasses, the result is the class loaded
     through, with every value — the only class the serialized keys can tell. -/
 theorem c14_same_fields (R : List RCls) (π : Nat → List Nat) (fuel : Nat) (b D : Nat) (rb rD : RCls)
-    (x : Str → Int) (drop : Option Bool) (h : Derived R b D rb rD []) (hset : Settable rb) :
+    (x : Str → Int) (drop : Option Bool) (h : Derived R b D rb rD []) :
     fromDict R π (fuel + 1) b (encV R false (.inst D (valOf x rD.fields))) drop = .ok (.inst b (valOf x rb.fields)) := by
   have hn : rD.fields.map (·.name) = rb.fields.map (·.name) := by simpa using h.names
   rw [enc_flat]
-  exact load_exact R π fuel b rb _ x drop h.hb hset (lookup_rawOf_none x _ _ h.noTypeKey) h.primB
+  exact load_exact R π fuel b rb _ x drop h.hb (lookup_rawOf_none x _ _ h.noTypeKey) h.primB
     (fun f hf => lookup_rawOf_name x _ f.name (by rw [hn]; exact mem_map.mpr ⟨f, hf, rfl⟩))
     (fun k hk => by rw [rawOf_keys, hn] at hk; exact hk)
 
@@ -530,7 +510,7 @@ def exR (dis : Bool) : List RCls := resolve (exH dis)
 
 /-- the hypotheses of `c14_identified` are satisfiable: `D1` through `B0`, candidates in the order `[5, 3, 2, 1]` -/
 example : Derived (exR true) 0 1 ((exR true).getD 0 default) ((exR true).getD 1 default) ["x".toList] :=
-  ⟨rfl, rfl, rfl, by decide, by decide, by decide, by decide, Or.inl rfl⟩
+  ⟨rfl, rfl, rfl, by decide, by decide, by decide, by decide⟩
 example : ExtendBase (exR true) [5, 3, 2, 1] 0 := by
   intro c hc k hk
   have hc' : c = 5 ∨ c = 3 ∨ c = 2 ∨ c = 1 := by simpa using hc
@@ -590,7 +570,7 @@ theorem eraseKey_head {α : Type} (k : Str) (v : α) (r : List (Str × α)) (h :
     `drop_extra_fields` — regardless of field sets, of the subclass set order, and of whether `D` derives from `b`. -/
 theorem c14_dc_types_top (R : List RCls) (π : Nat → List Nat) (fuel : Nat) (b D : Nat) (rD : RCls)
     (x : Str → Int) (drop : Option Bool)
-    (hD : R[D]? = some rD) (hloc : locate R rD.name = some D) (hset : Settable rD)
+    (hD : R[D]? = some rD) (hloc : locate R rD.name = some D)
     (hprim : ∀ f ∈ rD.fields, f.ty = .prim) (hnt : typeKey ∉ rD.fields.map (·.name)) :
     fromDict R π (fuel + 2) b (encV R true (.inst D (valOf x rD.fields))) drop = .ok (.inst D (valOf x rD.fields)) := by
   have henc : encV R true (.inst D (valOf x rD.fields)) = .obj ((typeKey, J.str rD.name) :: rawOf x rD.fields) := by
@@ -598,7 +578,7 @@ theorem c14_dc_types_top (R : List RCls) (π : Nat → List Nat) (fuel : Nat) (b
   have hk : typeKey ∉ (rawOf x rD.fields).map (·.1) := by rw [rawOf_keys]; exact hnt
   rw [henc, show fuel + 2 = (fuel + 1) + 1 from rfl, fromDict]
   simp only [lookupKey_head, hloc, eraseKey_head _ _ _ hk]
-  exact load_exact R π fuel D rD _ x drop hD hset (lookup_rawOf_none x _ _ hnt) hprim
+  exact load_exact R π fuel D rD _ x drop hD (lookup_rawOf_none x _ _ hnt) hprim
     (fun f hf => lookup_rawOf x _ f hf) (fun k hk' => by rw [rawOf_keys] at hk'; exact hk')
 
 /-- e.g. the sibling-with-identical-fields case that plain loading cannot tell apart: `D1` written with its type,
@@ -633,7 +613,7 @@ def okV (R : List RCls) (items : Bool) : Val → Bool
   | .inst c fs =>
     match R[c]? with
     | some rc => (locate R rc.name == some c) && !((rc.fields.map (·.name)).contains typeKey)
-                 && (!rc.frozen || rc.fields.all (·.init)) && okFields R items rc.fields fs
+                 && okFields R items rc.fields fs
     | none => false
   | _ => false
 def okFields (R : List RCls) (items : Bool) : List Field → List (Str × Val) → Bool
@@ -784,11 +764,7 @@ theorem c14_dc_types_partial (R : List RCls) (π : Nat → List Nat) (v : Val) (
     | some rc =>
       unfold okV at hok
       simp only [hc, Bool.and_eq_true, beq_iff_eq, Bool.not_eq_true'] at hok
-      obtain ⟨⟨⟨hloc, hnt⟩, hsetb⟩, hfs⟩ := hok
-      have hset : Settable rc := by
-        rcases Bool.or_eq_true _ _ ▸ hsetb with h1 | h1
-        · exact Or.inl (by simpa using h1)
-        · exact Or.inr (fun f hf => by simpa using List.all_eq_true.mp h1 f hf)
+      obtain ⟨⟨hloc, hnt⟩, hfs⟩ := hok
       have hnt' : typeKey ∉ rc.fields.map (·.name) := by
         intro hm
         have : (rc.fields.map (·.name)).contains typeKey = true := by simpa using hm
@@ -825,7 +801,6 @@ theorem c14_dc_types_partial (R : List RCls) (π : Nat → List Nat) (v : Val) (
         rw [hkeys]; apply filter_eq_nil_iff.mpr; intro k hk; simp [hk]
       simp only [hno, isEmpty_nil, Bool.true_or, if_true]
       rw [construct_of_lookup rc.fields fs fs hnames (fun p hp => lookup_self fs hnd p hp)]
-      simp only [settable_ok rc _ hset, Bool.false_eq_true, if_false]
 /-- the field loop of `from_dict` on the serialized fields of a well-formed instance -/
 theorem dc_fields_partial (R : List RCls) (π : Nat → List Nat) (F : List Field) (fs : List (Str × Val))
     (hok : okFields R false F fs = true) (fuel : Nat) (hf : depthKV fs ≤ fuel) (kv : List (Str × J)) (e : Bool)
@@ -1049,7 +1024,7 @@ theorem c14_identified_table (h : List Cls) (π : Nat → List Nat) (fuel : Nat)
     (hdesc : D ∈ descendants (resolve h) b) (hπ : (π b).Perm (descendants (resolve h) b))
     (hadds : rD.fields.map (·.name) ≠ rb.fields.map (·.name))
     (hpb : ∀ f ∈ rb.fields, f.ty = .prim) (hpD : ∀ f ∈ rD.fields, f.ty = .prim)
-    (hnd : (rD.fields.map (·.name)).Nodup) (hnt : typeKey ∉ rD.fields.map (·.name)) (hset : Settable rD)
+    (hnd : (rD.fields.map (·.name)).Nodup) (hnt : typeKey ∉ rD.fields.map (·.name))
     (hkeep : drop.getD (if rb.mixin then false else !rb.dis) = false)
     (huniq : Identifies (fieldNames (resolve h)) ((π b).filter (fun c => c ≠ b)) D) :
     fromDict (resolve h) π (fuel + 2) b (encV (resolve h) false (.inst D (valOf x rD.fields))) drop
@@ -1060,7 +1035,7 @@ theorem c14_identified_table (h : List Cls) (π : Nat → List Nat) (fuel : Nat)
   obtain ⟨rb', hrb', hlt, hpre, _⟩ := hinv D rD hD b hbD
   rw [hb] at hrb'; cases hrb'
   obtain ⟨extn, hextn⟩ := hpre
-  have hder : Derived (resolve h) b D rb rD extn := ⟨hb, hD, hextn.symm, hpb, hpD, hnd, hnt, hset⟩
+  have hder : Derived (resolve h) b D rb rD extn := ⟨hb, hD, hextn.symm, hpb, hpD, hnd, hnt⟩
   have hext : extn ≠ [] := by
     intro he; apply hadds; rw [← hextn, he, append_nil]
   have hsubcls : ExtendBase (resolve h) (π b) b := by
@@ -1080,33 +1055,32 @@ theorem c14_identified_table (h : List Cls) (π : Nat → List Nat) (fuel : Nat)
 example : 1 ∈ descendants (exR true) 0 ∧ ([5, 3, 2, 1] : List Nat).Perm (descendants (exR true) 0) := by decide
 example : exR true = resolve (exH true) := rfl
 
-/-! ### (E3) open finding `C14-frozen-noninit-setattr`: a frozen dataclass with an `init=False` field cannot be loaded -/
+/-! ### (E3) repaired finding `C14-frozen-noninit-setattr` (/repo 6aeb5e3: `object.__setattr__` for the init=False values):
+    a frozen dataclass with an `init=False` field loads like any other -/
 
 def exFrozen : List RCls := resolve
   [ mkCls "F0" none (some true) [fInt "a"] true,
     mkCls "F2" (some 0) none [fInt "n" false] true,
     mkCls "F3" (some 0) none [fInt "x"] true ]
 
-/-- loading the serialized form of an instance through its own class gives it back (full statement, no `Settable`) -/
-def LoadThroughSelfFull : Prop :=
-  ∀ (R : List RCls) (π : Nat → List Nat) (fuel : Nat) (b : Nat) (rb : RCls) (x : Str → Int) (drop : Option Bool),
-    R[b]? = some rb → (∀ f ∈ rb.fields, f.ty = .prim) → (rb.fields.map (·.name)).Nodup → typeKey ∉ rb.fields.map (·.name) →
-    fromDict R π (fuel + 1) b (encV R false (.inst b (valOf x rb.fields))) drop = .ok (.inst b (valOf x rb.fields))
+/-- **Loading the serialized form of an instance through its own class gives it back** — any class (frozen or not, init=False
+    fields or not), any `drop_extra_fields`, any subclasses, any set order.  (Before the repair this full statement was
+    refuted by `F2` below: `setattr` raised `FrozenInstanceError`.) -/
+theorem c14_load_through_self (R : List RCls) (π : Nat → List Nat) (fuel : Nat) (b : Nat) (rb : RCls) (x : Str → Int)
+    (drop : Option Bool) (hb : R[b]? = some rb) (hp : ∀ f ∈ rb.fields, f.ty = .prim)
+    (hnt : typeKey ∉ rb.fields.map (·.name)) :
+    fromDict R π (fuel + 1) b (encV R false (.inst b (valOf x rb.fields))) drop = .ok (.inst b (valOf x rb.fields)) := by
+  rw [enc_flat]
+  exact load_exact R π fuel b rb _ x drop hb (lookup_rawOf_none x _ _ hnt) hp
+    (fun f hf => lookup_rawOf x _ f hf) (fun k hk => by rw [rawOf_keys] at hk; exact hk)
 
-/-- **Witness.** `F2` (frozen, adds `n: init=False`): `from_dict` builds the instance and then `setattr(instance, "n", …)`
-    raises `FrozenInstanceError` (serializable.py:909) — through `F2` itself and through its base `F0`. -/
-theorem c14_frozen_noninit_witness : ¬ LoadThroughSelfFull := by
-  intro h
-  have := h exFrozen (fun _ => [1, 2]) 1 1 (exFrozen.getD 1 default) (fun _ => 7) none rfl (by decide) (by decide) (by decide)
-  have e : fromDict exFrozen (fun _ => [1, 2]) (1 + 1) 1
-      (encV exFrozen false (.inst 1 (valOf (fun _ => 7) (exFrozen.getD 1 default).fields))) none
-      = .raise "FrozenInstanceError".toList := by rfl
-  rw [e] at this
-  cases this
+/-- regression: `F2` (frozen, adds `n: init=False`) through itself and through its base `F0` -/
+example : fromDict exFrozen (fun _ => [1, 2]) 2 1
+    (encV exFrozen false (.inst 1 [("a".toList, .int 7), ("n".toList, .int 8)])) none
+    = .ok (.inst 1 [("a".toList, .int 7), ("n".toList, .int 8)]) := by rfl
 example : fromDict exFrozen (fun _ => [1, 2]) 3 0
-    (encV exFrozen false (.inst 1 [("a".toList, .int 7), ("n".toList, .int 8)])) none = .raise "FrozenInstanceError".toList := by rfl
-/-- a frozen class WITHOUT `init=False` fields is `Settable` and loads fine (`c14_identified` applies) -/
-example : Settable (exFrozen.getD 2 default) := Or.inr (by decide)
+    (encV exFrozen false (.inst 1 [("a".toList, .int 7), ("n".toList, .int 8)])) none
+    = .ok (.inst 1 [("a".toList, .int 7), ("n".toList, .int 8)]) := by rfl
 example : fromDict exFrozen (fun _ => [1, 2]) 3 0
     (encV exFrozen false (.inst 2 [("a".toList, .int 7), ("x".toList, .int 8)])) none
     = .ok (.inst 2 [("a".toList, .int 7), ("x".toList, .int 8)]) := by rfl
@@ -1178,19 +1152,17 @@ structure DerivedKeys (R : List RCls) (b D : Nat) (rb rD : RCls) (extn : List St
   keys : kv.map (·.1) = rD.fields.map (·.name)
   nodup : (rD.fields.map (·.name)).Nodup
   noTypeKey : lookupKey typeKey kv = none
-  settable : Settable rD
 
 /-- **Drop clause, any content.** If the base's fields decode (to whatever values `dec`) and the constructor accepts them,
     the result is an instance of EXACTLY the base — whatever else the dict holds, whatever subclasses exist. -/
 theorem c14_drop_gen (R : List RCls) (π : Nat → List Nat) (fuel : Nat) (b : Nat) (rb : RCls) (kv : List (Str × J))
     (drop : Option Bool) (dec fs : List (Str × Val))
-    (hb : R[b]? = some rb) (hset : Settable rb)
+    (hb : R[b]? = some rb)
     (hdrop : drop.getD (if rb.mixin then false else !rb.dis) = true) (hty : lookupKey typeKey kv = none)
     (hdec : decodeFields (fun c j dr => fromDict R π fuel c j dr) true kv rb.fields = .ok dec)
     (hcon : construct rb.fields dec = .ok fs) :
     fromDict R π (fuel + 1) b (.obj kv) drop = .ok (.inst b fs) := by
-  simp only [fromDict, hty, hb, hdrop, hdec, Bool.or_true, if_true, hcon, settable_ok rb _ hset,
-    Bool.false_eq_true, if_false]
+  simp only [fromDict, hty, hb, hdrop, hdec, Bool.or_true, if_true, hcon]
 
 /-- the first call through the base, any content: the choice is made on the key names alone -/
 theorem keep_step_gen (R : List RCls) (π : Nat → List Nat) (fuel : Nat) (b D : Nat) (rb rD : RCls)
@@ -1203,7 +1175,7 @@ theorem keep_step_gen (R : List RCls) (π : Nat → List Nat) (fuel : Nat) (b D 
       match pickSubclass R ((π b).filter (fun c => c ≠ b)) (reqN R b rb extn) with
       | some child => fromDict R π (fuel + 1) child (.obj kv) (some false)
       | none => .raise "RuntimeError".toList := by
-  obtain ⟨hb, hD, hnames, hkeys, hnd, hty, _⟩ := h
+  obtain ⟨hb, hD, hnames, hkeys, hnd, hty⟩ := h
   have hnd' := hnd
   rw [hnames] at hnd'
   have hdisj : ∀ k ∈ extn, k ∉ rb.fields.map (·.name) := fun k hk hk' =>
@@ -1258,8 +1230,7 @@ theorem c14_identified_gen (R : List RCls) (π : Nat → List Nat) (fuel : Nat) 
     c14_identified_pick (fieldNames R) _ _ D hDc hndI hcov hfull huniq]
   have hno : (kv.map (·.1)).filter (fun k => !(rD.fields.map (·.name)).contains k) = [] := by
     rw [h.keys]; apply filter_eq_nil_iff.mpr; intro k hk; simp [hk]
-  simp only [fromDict, h.noTypeKey, h.hD, Option.getD_some, hdecD, hno, isEmpty_nil, Bool.true_or, if_true, hcon,
-    settable_ok rD _ h.settable, Bool.false_eq_true, if_false]
+  simp only [fromDict, h.noTypeKey, h.hD, Option.getD_some, hdecD, hno, isEmpty_nil, Bool.true_or, if_true, hcon]
 
 /-- non-vacuity with nested content: `D6(B0)` adds `f: Box`-like nested fields — here `Box` (class 4) holding a list, a
     dataclass and an Optional — loaded through … itself is covered by `c14_dc_types_partial`; for the key-only theorem take the
